@@ -367,7 +367,32 @@ class LinOracles(Oracles):
         """for specifications: truth of a predicate under the refined intervals (None if undetermined)"""
         return self.decide(op, {k: v for k, v in da.items() if v != 0}, ca)
 
-    def find_model(self, atoms, pred, bound=9, extra=None):
+    def wraps(self, atoms, big=None):
+        """the first recorded machine operation on affine counters whose mathematical result can leave the type's range under the recorded
+        constraints: (op, lhs, rhs, model) or None.  (Only the FIRST such operation of a run is exact — later constraints were recorded
+        with the affine description of a wrapped value — which is why the search stops there.)"""
+        big = big or [(1 << 64) - 1, (1 << 64) - 2, 1 << 63]
+        for (op, fa, fb, w, signed) in getattr(self, "arith", None) or []:
+            lo, hi = (-(1 << (w - 1)), (1 << (w - 1)) - 1) if signed else (0, (1 << w) - 1)
+
+            def val(f, e):
+                return sum(c * e[a] for a, c in f[0].items()) + f[1]
+
+            def pred(e, op=op, fa=fa, fb=fb):
+                try:
+                    x, y = val(fa, e), val(fb, e)
+                except KeyError:
+                    return False
+                r = x + y if op == "Add" else (x - y if op == "Sub" else x * y)
+                return r < lo or r > hi
+            if any(a not in atoms for f in (fa, fb) for a in f[0]):
+                continue
+            env = self.find_model(atoms, pred, big=big)
+            if env is not None:
+                return (op, fa, fb, env)
+        return None
+
+    def find_model(self, atoms, pred, bound=9, extra=None, big=None):
         """search small non-negative integer values of the atoms satisfying every recorded interval / exclusion (and `extra`)
         for which pred(values) holds; returns the assignment or None.  A decision procedure for the tiny linear systems the
         iterator tables produce — it evaluates the recorded constraints, not the code."""
@@ -384,6 +409,8 @@ class LinOracles(Oracles):
                                 cand.append(v)
         if len(cand) ** max(len(atoms), 1) > 400000:
             cand = cand[:bound + 1] + cand[-3:]
+        if big:
+            cand = cand[:6] + [v for v in big if v not in cand[:6]] if len(atoms) >= 4 else cand + [v for v in big if v not in cand]
         for vals in itertools.product(cand, repeat=len(atoms)):
             env = dict(zip(atoms, vals))
             ok = True
